@@ -15,7 +15,10 @@
 // (branch, index), the address's script hash is sha256(OP_1 <that key> OP_1 OP_CHECKMULTISIG), and a
 // wrong passphrase is refused; otherwise the first failure.
 // short = 1 when a hardened step of m/44'/coin'/1' has a parent scalar with a leading zero byte (the
-// recorded finding C14 short-parent-hardened-child: the code then leaves BIP-32).
+// recorded finding C14 short-parent-hardened-child: the code then leaves BIP-32). Such a life has no
+// independent reference: it is judged across instances only, and the addresses its restore-with-discovery
+// stage pays come from a throwaway instance of the implementation (implAddrs). Cases = 7 mod 16 are
+// short-parent wallets on purpose.
 package main
 
 import (
@@ -185,6 +188,33 @@ func observe(w *simx.Wallet, id string) (string, []addrObs, error) {
 	return fmt.Sprintf("%d,%d", ex, in), l, nil
 }
 
+// implAddrs restores the mnemonic into a fresh throwaway instance with the given index hints and returns the
+// script hash the IMPLEMENTATION gives every (branch, index) below the hints.
+func implAddrs(node *sim.Node, dir, pub, mnemonic, pass, remark string, exN, inN uint32) (map[[2]uint32][]byte, error) {
+	w, err := simx.Open(node, dir, pub)
+	if err != nil {
+		return nil, err
+	}
+	defer w.Stop()
+	sum, err := w.WM.ImportWalletWithMnemonic(&keystore.WalletParams{Version: keystore.KeystoreVersionLatest, Mnemonic: mnemonic,
+		Remarks: remark, PrivatePassphrase: []byte(pass), ExternalIndex: exN, InternalIndex: inN, AddressGapLimit: sim.Cur.GapLimit})
+	if err != nil {
+		return nil, fmt.Errorf("ImportWalletWithMnemonic (address table of a short-parent case): %v", err)
+	}
+	if !w.WaitTasks(20 * time.Second) {
+		return nil, fmt.Errorf("import (address table of a short-parent case) did not finish")
+	}
+	_, l, err := observe(w, sum.WalletID)
+	if err != nil {
+		return nil, err
+	}
+	tbl := map[[2]uint32][]byte{}
+	for _, a := range l {
+		tbl[[2]uint32{a.b, a.i}] = a.sh
+	}
+	return tbl, nil
+}
+
 func signCheck(w *simx.Wallet, r *rng.R, pass string, l []addrObs, rf *ref) string {
 	defer w.KS.ClearPrivKey()
 	for _, a := range l {
@@ -335,6 +365,26 @@ func runOne(seed uint64, n int, out *bufio.Writer) error {
 		if mnemonic, err = keystore.NewMnemonic(ent); err != nil {
 			w1.Stop()
 			return err
+		}
+		if n%16 == 7 {
+			// a short-parent wallet on purpose (about 1 in 85 wallets is one by chance, so a run of forty lives met the
+			// class only now and then): fresh entropies until a hardened step of the path has a short parent scalar.
+			// Such a life has no independent reference (finding C14), it is judged by the cross-instance rules alone
+			for try := 0; try < 4000; try++ {
+				if rfTry, err := newRef(mnemonic, pass, coin); err == nil && rfTry.short {
+					stats["short_parent_sought"]++
+					break
+				}
+				e2, err := keystore.NewEntropy(bits)
+				if err != nil {
+					break
+				}
+				m2, err := keystore.NewMnemonic(e2)
+				if err != nil {
+					break
+				}
+				mnemonic = m2
+			}
 		}
 		sum, err := w1.WM.ImportWalletWithMnemonic(&keystore.WalletParams{Version: keystore.KeystoreVersionLatest, Mnemonic: mnemonic,
 			Remarks: remark, PrivatePassphrase: []byte(pass), AddressGapLimit: sim.Cur.GapLimit})
@@ -531,18 +581,36 @@ func runOne(seed uint64, n int, out *bufio.Writer) error {
 		// of a branch overwrote the records of the first)
 		muEx, muIn := -1, -1
 		if r.Chance(50) {
+			// whom to pay: the independent derivation gives the script hash of every index, except in a short-parent
+			// case, where the wallet's key chain is not the BIP-32 one (recorded finding C14 short-parent-hardened-child)
+			// and the reference addresses belong to nobody: there the addresses are read off a throwaway instance of
+			// the implementation restored, before any payment, with hints beyond every index paid below (that the
+			// address at an index is the same in every instance is what the address-differs rule checks)
+			shOf := func(b, i uint32) []byte { _, sh := rf.addr(b, i); return sh }
+			if rf.short {
+				tbl, err := implAddrs(node, root+"/i6", pub, mnemonic, pass, remark, exHint+10, inHint+10)
+				if err != nil {
+					return err
+				}
+				shOf = func(b, i uint32) []byte { return tbl[[2]uint32{b, i}] }
+				stats["restore_with_discovery_short_parent"]++
+			}
 			var outs []sim.Out
-			pay := func(b, i uint32) {
-				if _, sh := rf.addr(b, i); sh != nil {
+			pay := func(b, i uint32) bool {
+				if sh := shOf(b, i); sh != nil {
 					if pk, err := txscript.PayToWitnessScriptHashScript(sh); err == nil {
 						outs = append(outs, sim.Out{Script: pk, Value: int64(1+len(outs)) * 1000000})
+						return true
 					}
 				}
+				stats["discovery_payment_skipped"]++
+				return false
 			}
 			for k, i := 0, exHint; k < 1+r.Intn(3); k++ {
 				i += uint32(1 + r.Intn(3))
-				pay(0, i)
-				muEx = int(i)
+				if pay(0, i) {
+					muEx = int(i)
+				}
 			}
 			if r.Chance(60) {
 				for k, i := 0, inHint; k < 1+r.Intn(3); k++ {
@@ -550,8 +618,9 @@ func runOne(seed uint64, n int, out *bufio.Writer) error {
 					if k > 0 && r.Chance(50) {
 						i++
 					}
-					pay(1, i)
-					muIn = int(i)
+					if pay(1, i) {
+						muIn = int(i)
+					}
 				}
 			}
 			// one payment per block (the restore walks blocks; discoveries come one by one)
